@@ -232,7 +232,32 @@ _add("C04", "(*log.FileIO).wasWritten")
 _add("C06", S+"buildCache", ["log-refill-never-overwrites", "refill-window", "window-is-recorded"])
 _add("C09", S+"Received")
 _add("C13", "(*http.Server).routeData")
-_add("C13", "payload.NewDecoder", ["name-and-predecessor-of-every-part-are-converted"])
+_add("C13", "payload.NewDecoder", ["name-and-predecessor-of-every-part-are-converted", "malformed-header-is-refused"])
+# round 6 (sixth batch)
+_add("C15", "(*control.Postgres).IsValid")
+_add("C15", H+"getGateKeeper")
+_add("C20", H+"routeInternal")
+_add("C14", H+"handleValidate$1")
+_add("C14", "(*main.serverApp).standardValidator")
+_add("C14", "main.strToIndex")
+_add("C11", S+"Received")
+_add("C11", "(*payload.Encoder).startNextPart", ["every-part-is-opened-and-positioned", "next-part-in-header-order", "seeks-to-the-part-start", "opens-the-part-file"])
+P["C08"]["labels"][H+"routeData"] = sorted(set(P["C08"]["labels"].get(H+"routeData") or []) | {"one-part-count-per-answer", "part-k-with-reader-k"})
+_add("C08", S+"partReceived", ["yes-needs-record-or-known-file", "known-file-answers-yes", "same-version-only"])
+_add("C09", H+"routeData", ["part-k-with-reader-k", "index-in-range", "partcount-is-receive-count"])
+_add("C10", "(*main.clientApp).init$3")
+_add("C10", B+"startRetry", ["resend-keeps-prev"])
+_add("C05", "(*main.serverApp).init")
+_add("C06", S+"partReceived", ["yes-needs-record-or-known-file", "known-file-answers-yes", "same-version-only", "delivery-record-reaches-back-to-the-part"])
+_add("C07", B+"startTrack")
+_add("C01", S+"cleanWaiting")
+for _p in ("C07", "C04"):
+    _add(_p, S+"Scan")
+_add("C04", "stage.newLocalCompanion")
+_add("C12", "(*queue.Tagged).getGroup")
+_add("C12", "(*queue.Tagged).Push")
+_add("C06", "(*log.rollingFile).rotate")
+_add("C05", "(*log.rollingFile).rotate")
 # round 4: seeds that only the check of another property reported
 _add("C02", S+"partReceived", ["same-version-only", "known-file-answers-yes", "yes-needs-record-or-known-file"])
 _add("C04", "(*queue.sortedFile).getPrevName")
